@@ -56,6 +56,12 @@ func (a *SayMsgAction) Execute(run flows.Run, step flows.Step, logModifier flows
 	// localize the audio URL
 	localizedAudioURL, _ := run.GetText(uuids.UUID(a.UUID()), "audio_url", a.AudioURL)
 
+	// the URL becomes an attachment of the message so the limit for those applies
+	if len("audio:"+localizedAudioURL) > flows.MaxAttachmentLength {
+		logEvent(events.NewErrorf("audio URL is longer than %d limit, skipping", flows.MaxAttachmentLength-len("audio:")))
+		localizedAudioURL = ""
+	}
+
 	// if we have neither an audio URL or backdown text, skip
 	if evaluatedText == "" && localizedAudioURL == "" {
 		logEvent(events.NewErrorf("need either audio URL or backdown text, skipping"))
